@@ -371,7 +371,7 @@ def run_dev(desc):
     # -- the differential experiment
     trng = rng.fork("targets")
     cands = [(e[0], e[1]) for e in spec["eps"]]
-    trng.shuffle(cands)
+    cands = trng.shuffle(cands)
     targets = desc.get("targets") or cands[:3]
     targets = [tuple(t) for t in targets]
     if not fails:
